@@ -42,7 +42,7 @@ pub fn sentinel(name: &str, arg: &V) -> V {
         // (a spreadsheet-style helper), then returns a value derived from it and the argument
         "r" => {
             let inner = evalexpr::eval_with_context(
-                "1 + 1",
+                "len(\"a\") + 1",
                 &EmptyContextWithBuiltinFunctions::<DefaultNumericTypes>::default(),
             );
             // ... and one that fails, which the function handles itself
